@@ -17,7 +17,8 @@
 //!   must have its predicted page. Plus `-t lcov|covdir|files -o` into a missing nested directory
 //!   (nothing may be created: `get_target_output_writable` does not create parents), an existing
 //!   directory (`<dir>/<fixed name>`), or a file.
-//! * the witness of finding C19-html-backslash-escape (a path mapping with backslashes).
+//! * corpus/C19/*.json (op `dest.cli.corpus`) first: minimised past failures, e.g. the former finding
+//!   C19-html-backslash-escape (a path mapping with backslashes; fixed by /repo 568afd2).
 use corrlib::pipe::*;
 use corrlib::*;
 use serde_json::json;
@@ -26,13 +27,13 @@ use std::path::{Path, PathBuf};
 use std::time::Duration;
 
 fn add_html_ext_std(path: &Path) -> PathBuf {
-    // html.rs 204-212, verbatim, on std
+    // html.rs 204-212, verbatim (after fix b1b2416), on std
     if let Some(ext) = path.extension() {
         let mut ext = ext.to_str().unwrap().to_owned();
         ext.push_str(".html");
         path.with_extension(ext)
     } else {
-        path.with_extension(".html")
+        path.with_extension("html")
     }
 }
 
@@ -343,7 +344,8 @@ struct Sf {
     rel: Option<&'static str>, // reported relative path whose page must exist
 }
 
-fn cli_case(rep: &mut Report, rng: &mut Rng, c: u64, witness: bool, reqs: &mut Vec<String>, checks: &mut Vec<(serde_json::Value, PathBuf, BTreeSet<String>, Vec<String>)>) {
+fn cli_case(rep: &mut Report, rng: &mut Rng, c: u64, fixed: Option<&serde_json::Value>, reqs: &mut Vec<String>, checks: &mut Vec<(serde_json::Value, PathBuf, BTreeSet<String>, Vec<String>)>) {
+    let witness = fixed.is_some();
     let case_dir = rep.workdir.join(format!("destB{}{}", if witness { "w" } else { "" }, c));
     let _ = std::fs::remove_dir_all(&case_dir);
     for d in ["in", "tmp", "cwd", "bait", "o0"] {
@@ -363,6 +365,7 @@ fn cli_case(rep: &mut Report, rng: &mut Rng, c: u64, witness: bool, reqs: &mut V
         Sf { sf: "badges/flat.svg", file: Some("badges/flat.svg"), rel: Some("badges/flat.svg") },
         Sf { sf: "coverage.json", file: Some("coverage.json"), rel: Some("coverage.json") },
         Sf { sf: "src/index.html", file: Some("src/index.html"), rel: Some("src/index.html") },
+        Sf { sf: "src/index", file: Some("src/index"), rel: Some("src/index") },
         Sf { sf: "ü/ñ.c", file: Some("ü/ñ.c"), rel: Some("ü/ñ.c") },
         Sf { sf: long, file: Some(long), rel: Some(long) },
         Sf { sf: "..c", file: Some("..c"), rel: None },
@@ -379,12 +382,20 @@ fn cli_case(rep: &mut Report, rng: &mut Rng, c: u64, witness: bool, reqs: &mut V
     let mut sfs = vec![];
     let mut must: Vec<String> = vec![];
     let mut hostile = false;
-    if witness {
-        // finding C19-html-backslash-escape
-        std::fs::write(case_dir.join("in/linked-files-map.json"), "{\"a.c\": \"x\\\\..\\\\..\\\\..\\\\pwn.c\"}").unwrap();
-        std::fs::write(case_dir.join("cwd").join("x\\..\\..\\..\\pwn.c"), "int pwn;\n").unwrap();
-        info.push_str("SF:a.c\nDA:1,1\nend_of_record\n");
-        sfs.push("a.c".to_string());
+    if let Some(f) = fixed {
+        // a corpus case (corpus/C19/*.json, op dest.cli.corpus): a minimised past failure
+        if let Some(m) = f["mapping"].as_str() {
+            std::fs::write(case_dir.join("in/linked-files-map.json"), m).unwrap();
+        }
+        for name in f["files"].as_array().cloned().unwrap_or_default() {
+            let p = case_dir.join("cwd").join(name.as_str().unwrap());
+            std::fs::create_dir_all(p.parent().unwrap()).unwrap();
+            std::fs::write(&p, "int pwn;\n").unwrap();
+        }
+        for sf in f["sf"].as_array().cloned().unwrap_or_default() {
+            info.push_str(&format!("SF:{}\nDA:1,1\nend_of_record\n", sf.as_str().unwrap()));
+            sfs.push(sf.as_str().unwrap().to_string());
+        }
         hostile = true;
     } else {
         let k = rng.range(2, 7);
@@ -418,11 +429,18 @@ fn cli_case(rep: &mut Report, rng: &mut Rng, c: u64, witness: bool, reqs: &mut V
     }
     std::fs::write(case_dir.join("in/a.info"), &info).unwrap();
     // output: a nested directory that does not exist yet (html creates it), or an existing one
-    let out_rel = if witness || rng.chance(2, 3) { "o0/o1/o2/o3/html" } else { "o0/html" };
-    let with_s = witness || rng.chance(4, 5);
+    let out_rel: String = match fixed {
+        Some(f) => f["out"].as_str().unwrap_or("o0/o1/o2/o3/html").to_string(),
+        None => (if rng.chance(2, 3) { "o0/o1/o2/o3/html" } else { "o0/html" }).to_string(),
+    };
+    let out_rel = out_rel.as_str();
+    let with_s = match fixed {
+        Some(f) => f["source_dir"].as_bool().unwrap_or(false),
+        None => rng.chance(4, 5),
+    };
     let run = |ty: &str, out: &str, case_dir: &Path| {
         let mut extra: Vec<String> = vec!["-t".into(), ty.into(), "-o".into(), format!("../{}", out)];
-        if with_s && !witness {
+        if with_s {
             extra.extend(["-s".to_string(), ".".to_string()]);
         }
         std::env::set_var("TMPDIR", case_abs.join("tmp"));
@@ -439,7 +457,16 @@ fn cli_case(rep: &mut Report, rng: &mut Rng, c: u64, witness: bool, reqs: &mut V
     let ho = run("html", out_rel, &case_dir);
     let after = super::snapshot(&case_dir);
     let (files, dirs, other) = created_files(&before, &after);
-    let case = json!({"op": "dest.cli", "sf": sfs, "out": out_rel, "source_dir": with_s, "witness": witness, "rels": rels, "exit": [fo.exit, ho.exit]});
+    let case = match fixed {
+        Some(f) => {
+            let mut v = f.clone();
+            v["op"] = json!("dest.cli");
+            v["rels"] = json!(rels);
+            v["exit"] = json!([fo.exit, ho.exit]);
+            v
+        }
+        None => json!({"op": "dest.cli", "sf": sfs, "out": out_rel, "source_dir": with_s, "rels": rels, "exit": [fo.exit, ho.exit]}),
+    };
     rep.case(&format!("cli {:?} {} {}", sfs, out_rel, with_s), hostile);
     rep.count(&format!("cli.exit.{}", ho.exit.map(|c| c.to_string()).unwrap_or("timeout".into())));
     rep.count(if out_rel.contains("o1") { "cli.out_nested_missing" } else { "cli.out_parent_exists" });
@@ -467,14 +494,7 @@ fn cli_case(rep: &mut Report, rng: &mut Rng, c: u64, witness: bool, reqs: &mut V
     }
     if !bad.is_empty() {
         bad.truncate(8);
-        // matcher: some reported path contains a '..' segment that only exists because a backslash of the
-        // resolved path (mapping value / name on disk) became a separator, and every offending path is a
-        // page or directory index created outside the output directory
-        let from_backslash = rels.iter().any(|r| r.split('/').any(|s| s == "..")) && bad.iter().all(|b| b.starts_with("created"));
-        let finding = if from_backslash { Some("C19-html-backslash-escape") } else { None };
-        if finding.is_some() {
-            rep.count("cli.finding.backslash_escape");
-        }
+        let finding: Option<&str> = None;
         rep.fail("oracle", finding, format!("grcov -t html touched the file system outside the output directory: {:?}", bad), case.clone());
     }
     // ---- model: the set of created files ----
@@ -494,9 +514,19 @@ fn stream_cli(rep: &mut Report, rng: &mut Rng) {
     let n = rep.budget(36, 5);
     let mut reqs = vec![];
     let mut checks = vec![];
-    cli_case(rep, rng, 0, true, &mut reqs, &mut checks);
+    // corpus first: minimised past failures
+    let mut corpus: Vec<PathBuf> = std::fs::read_dir("/verif/corpus/C19").map(|d| d.flatten().map(|e| e.path()).collect()).unwrap_or_default();
+    corpus.sort();
+    for (i, p) in corpus.iter().enumerate() {
+        if let Some(v) = std::fs::read_to_string(p).ok().and_then(|t| serde_json::from_str::<serde_json::Value>(&t).ok()) {
+            if v["op"] == "dest.cli.corpus" {
+                rep.count("cli.corpus_case");
+                cli_case(rep, rng, i as u64, Some(&v), &mut reqs, &mut checks);
+            }
+        }
+    }
     for c in 0..n {
-        cli_case(rep, rng, c, false, &mut reqs, &mut checks);
+        cli_case(rep, rng, c, None, &mut reqs, &mut checks);
     }
     let ans = run_model(&reqs, &rep.workdir, "dest_cli");
     for (i, (case, _root, files, must)) in checks.iter().enumerate() {
@@ -609,11 +639,11 @@ pub fn replay(rep: &mut Report, case: &serde_json::Value) {
         "part Dest replays: the case names its stream ({}); re-run ./check C19 with the same seed — the paths are in the replay file",
         case["op"].as_str().unwrap_or("?")
     ));
-    // the finding's witness is deterministic: run it again
-    if case["witness"].as_bool() == Some(true) {
+    // a corpus case carries everything needed: run it again
+    if case["mapping"].is_string() || case["files"].is_array() {
         let mut rng = Rng::new(rep.seed ^ 0xC19D);
         let mut reqs = vec![];
         let mut checks = vec![];
-        cli_case(rep, &mut rng, 0, true, &mut reqs, &mut checks);
+        cli_case(rep, &mut rng, 0, Some(case), &mut reqs, &mut checks);
     }
 }
